@@ -179,6 +179,9 @@ def api_differential(ctx, wide=False):
                 elif r == 4:
                     s2 = CA.add_pressure_control(ctx.rng, spec, ctx.rng.choice(["to", "far"]))
                     spec = s2 or spec
+                if prof != "heat" and r != 3 and i % 2 == 0:
+                    from harness.c02_law import vary_temperatures
+                    spec = vary_temperatures(ctx.rng, spec)        # per-junction tfluid_k (hydraulic run)
             ref, dis = CA.compare_all(spec, factors, mode)
         except Exception as e:  # generator artefact (e.g. unsupplied after editing): count, skip
             ctx.count("generator_or_build_error:" + type(e).__name__)
